@@ -526,6 +526,10 @@ impl JobServer {
         );
         state.wait_fds.clear();
         state.create_tokens(n as i32);
+        #[cfg(feature = "verif-hooks")]
+        if n > 0 {
+            verif_token_event("abandon", &state, &n.to_string());
+        }
         if state.has_token() {
             state
                 .release_except_mine(self.params.token_fds)
